@@ -1,3 +1,28 @@
 // Kani harnesses mounted into crates/ripd/src/tasks/logs.rs (cfg(kani) only).
 #![allow(unused_imports, dead_code)]
 use super::*;
+include!("/verif/harness/common.rs");
+
+// C13 -- the task working-directory resolver.
+macro_rules! c13_task_cwd {
+    ($name:ident, $len:expr, $unwind:expr) => {
+        #[kani::proof]
+        #[kani::unwind($unwind)]
+        #[kani::stub(std::fmt::format, stub_fmt_format)]
+        fn $name() {
+            let b = sym_path_bytes::<$len>();
+            let raw = unsafe { core::str::from_utf8_unchecked(&b) };
+            let root = Path::new("/r");
+            let r = resolve_path(root, raw);
+            let esc = path_escapes(&b);
+            kani::cover!(r.is_ok(), "a path is accepted");
+            kani::cover!(esc, "an escaping path is generated");
+            if esc {
+                assert!(r.is_err(), "task cwd resolver accepted an absolute path or a path with a `..` segment");
+            }
+            core::mem::forget(r);
+        }
+    };
+}
+c13_task_cwd!(c13_task_cwd_len2, 2, 6);
+c13_task_cwd!(c13_task_cwd_len3, 3, 7);
